@@ -26,7 +26,7 @@ def b64(x):
 
 
 def run(c):
-    c.go2coq_sources = ["c03.go", "textmatch.go"]   # private translator build: another family's generator cannot break this check
+    c.go2coq_sources = ["c03.go", "textmatch.go", "c12.go"]   # private translator build: another family's generator cannot break this check
     thorough = c.tier == "thorough"
     c.rule = ("14 fixed MatchComment rules (named, unnamed-in-front, optional, nested, alternative (non-participating) groups, no groups "
               "= fast path, multi-byte, (?s) multi-line, Where filters, At(), Suggest, two alternatives) plus seeded random rules inserted at "
@@ -48,11 +48,19 @@ def run(c):
                        "Engine/CommentSpec.v")
 
     gen_ok = False
+    gen12_ok = False
     if c.go2coq("c03extras", "Gen_C03.v"):
         if c.coq_compile(["Gen_C03.v"]):
             gen_ok = True
-            c.install_tmpl("C03/Inst_Render.v", "C12/C12.v")
-            c.coq_compile(["Inst_Render.v", "C12.v"])
+    if c.go2coq("c12facts", "Gen_C12.v"):
+        if c.coq_compile(["Gen_C12.v"]):
+            gen12_ok = True
+    if gen_ok and gen12_ok:
+        c.install_tmpl("C03/Inst_Render.v", "C12/Inst_Comment.v", "C12/C12.v")
+        c.coq_compile(["Inst_Render.v", "Inst_Comment.v", "C12.v"])
+    # the executed model declares the loop's match data where the source does (read off by go2coq); without a readable
+    # source it falls back to the specified behaviour
+    fresh = "gen_c12_match_data_fresh" if gen12_ok else "true"
 
     hb = c.build_harness("c12")
     if hb is None:
@@ -84,8 +92,23 @@ def run(c):
         if finfo["parser_comments"] != finfo["built_comments"]:
             c.obligation("harness-consistency:c12", False, "the parser found %d comments, %d were generated" % (
                 finfo["parser_comments"], finfo["built_comments"]))
-        src = b64(finfo["src"])
+        srcs = [b64(x) for x in finfo["srcs"]]
         pending = []
+        # the flag that sends a rule down the no-submatch path must not be false for a pattern that names a group
+        for r in rules:
+            c.count()
+            named_groups = [n for n in r["names"] if n]
+            if named_groups:
+                c.nontriv(("pattern", r["pat"]))
+            if named_groups and not r["groups"]:
+                c.fail("oracle", "regexpHasCaptureGroups is false for a pattern with named groups: the rule takes the no-submatch path and "
+                       "its groups are never bound", input={"pattern": r["pat"], "SubexpNames": r["names"]}, expected=True, observed=False)
+        # every report of a comment rule sits in a comment of the analysed file
+        for o in obs:
+            if o["k"] == "stray":
+                c.fail("oracle", "a comment rule reported a node that lies in no comment of the analysed file",
+                       input={"file": o["file"], "TruncateLen": o["L"], "group": o["group"], "rule_line": o["line"]}, expected="a node inside a comment",
+                       observed={"node_file": o["node_file"], "nil_node": o["nil_node"], "pos": o["pos"], "end": o["end"], "message": repr(b64(o["msg"]))})
 
         def rep_tuple(r):
             return (r["pos"], r["end"], b64(r["msg"]), bool(r["has_sugg"]), r["sugg_from"] if r["has_sugg"] else 0,
@@ -94,18 +117,20 @@ def run(c):
         # ---- O
         for i, o in enumerate(comments):
             c.count()
-            inp = {"comment": repr(b64(o.get("src"))), "offset": o.get("off"), "TruncateLen": o["L"]}
+            inp = {"comment": repr(b64(o.get("src"))), "file": o.get("file"), "offset": o.get("off"), "TruncateLen": o["L"]}
             if o.get("panic"):
                 c.fail("oracle", "run over the comment file failed", input=inp, observed=o["panic"], expected="reports")
                 continue
             ob = o.get("obs") or []
             w = o.get("want")
             if w is not None or ob:
-                c.nontriv((o["src"], o["off"], o["L"]))
+                c.nontriv((o["src"], o["file"], o["off"], o["L"]))
             guard = FINDING if o["has_cr"] else None
 
             def ofail(what, exp, got):
-                f = dict(what=what, input=dict(inp, rule=(rules[w["rule"]]["pat"] if w else None)), expected=exp, observed=got)
+                earlier = [rules[k]["pat"] for k in range(w["rule"] if w else len(rules)) if o["idx_src"][k] is not None]
+                f = dict(what=what, input=dict(inp, rule=(rules[w["rule"]]["pat"] if w else None), filter=(rules[w["rule"]]["filter"] if w else None),
+                                               earlier_rules_that_matched_and_rejected=earlier[:8]), expected=exp, observed=got)
                 if guard:
                     pending.append((i, f))
                 else:
@@ -143,18 +168,35 @@ def run(c):
         c.coverage["oracle_vs_impl_cases"] = c.coverage.get("oracle_vs_impl_cases", 0) + len(comments)
         c.coverage["comments_with_CR"] = c.coverage.get("comments_with_CR", 0) + sum(1 for o in comments if o.get("has_cr"))
         c.coverage["comment_rules"] = len(rules)
+        c.coverage["rules_with_short_named_group_syntax"] = sum(1 for r in rules if "(?<" in r["pat"])
+        c.coverage["target_files_in_one_fileset"] = len(srcs)
+        c.coverage["comments_where_an_earlier_rule_matched_and_rejected"] = c.coverage.get("comments_where_an_earlier_rule_matched_and_rejected", 0) + sum(
+            1 for o in comments if o.get("want") and any(o["idx_src"][k] is not None for k in range(o["want"]["rule"])))
 
         # ---- K: the Coq model with Go's regexp as the index oracle
+        def coq_filter(f):
+            if not f:
+                return "FTrue"
+            op = f["op"]
+            v, lit = coq_bytes(f.get("var", "").encode()), coq_bytes(f.get("lit", "").encode())
+            if op in ("eq", "ne", "eqvar", "nevar", "matches"):
+                return "(%s %s %s)" % ({"eq": "FTextEq", "ne": "FTextNe", "eqvar": "FTextEqVar", "nevar": "FTextNeVar", "matches": "FTextMatches"}[op], v, lit)
+            if op == "not":
+                return "(FNot %s)" % coq_filter(f["a"])
+            return "(%s %s %s)" % ({"and": "FAnd", "or": "FOr"}[op], coq_filter(f["a"]), coq_filter(f["b"]))
+
         def coq_rule(r):
-            flt = "None" if not r.get("filter") else "(Some (%s, %s))" % (coq_bytes(r["filter"][0].encode()), coq_bytes(r["filter"][1].encode()))
             return ("{| c_names := [%s]; c_groups := %s; c_filter := %s; c_rule := {| r_msg := %s; r_sugg := %s; r_loc := %s; r_line := %d |} |}" % (
-                ";".join(coq_bytes(n.encode()) for n in r["names"]), "true" if r["groups"] else "false", flt, coq_bytes(r["msg"].encode()),
+                ";".join(coq_bytes(n.encode()) for n in r["names"]), "true" if r["groups"] else "false", coq_filter(r.get("filter")), coq_bytes(r["msg"].encode()),
                 coq_bytes(r["sugg"].encode()), ("(Some %s)" % coq_bytes(r["at"].encode())) if r["at"] else "None", r["line"]))
 
         def coq_idx(ix):
             if ix is None:
                 return "None"
-            return "(Some [%s])" % ";".join("(%d,%d)" % (ix[k], ix[k + 1]) for k in range(0, len(ix), 2))
+            return "(Some [%s])" % ";".join("%d" % x for x in ix)
+
+        def coq_mt(mt):
+            return "[%s]" % ";".join("(%s, %s, %s)" % (coq_bytes(b64(x["pat"])), coq_bytes(b64(x["text"])), "true" if x["ok"] else "false") for x in (mt or []))
 
         def coq_obs(ob):
             if not ob:
@@ -165,10 +207,11 @@ def run(c):
             "From Coq Require Import List ZArith Bool Arith.",
             "From RG.Base Require Import Outcome GoInt GoSlice.",
             "From RG.Engine Require Import TruncateSpec RenderSpec CommentSpec.",
+            ("From RGW Require Import Gen_C12." if gen12_ok else ""),
             "From RGW Require Import Gen_C03." if gen_ok else
             "Definition nodeTextInRange (from to : Z) (src : bytes) : outcome bool := Ok ((0 <=? from)%Z && (from <? len src)%Z && ((0 <=? to)%Z && (to <=? len src)%Z)).",
             "Import ListNotations. Local Open Scope Z_scope.",
-            "Definition src : bytes := %s." % coq_bytes(src),
+            "Definition srcs : list bytes := [%s]." % ";\n".join(coq_bytes(x) for x in srcs),
             "Definition rules : list crule := [%s]." % ";\n".join(coq_rule(r) for r in rules),
             "Definition rep_eqb (m : option mreport) (o : option (Z * Z * bytes * bool * Z * Z * bytes * Z)) : bool :=",
             "  match m, o with None, None => true | Some r, Some (pos, en, msg, hs, sf, st, sg, ln) =>",
@@ -178,12 +221,15 @@ def run(c):
         good = [(i, o) for i, o in enumerate(comments) if not o.get("panic") and len(o.get("obs") or []) <= 1]
 
         def shard(items):
-            s = [pre, "Definition cases : list (Z * Z * Z * bytes * list (option (list (Z * Z))) * option (Z * Z * bytes * bool * Z * Z * bytes * Z)) := ["]
-            s.append(";\n".join("(%d, %d, %d, %s, [%s], %s)" % (i, o["L"], o["off"], coq_bytes(b64(o["text"])),
-                                                               ";".join(coq_idx(ix) for ix in o["idx"]), coq_obs(o.get("obs"))) for i, o in items))
+            s = [pre, "Definition cases : list (Z * Z * nat * Z * bytes * list (option (list Z)) * list (bytes * bytes * bool) * "
+                 "option (Z * Z * bytes * bool * Z * Z * bytes * Z)) := ["]
+            s.append(";\n".join("(%d, %d, %d%%nat, %d, %s, [%s], %s, %s)" % (i, o["L"], o["file"], o["off"], coq_bytes(b64(o["text"])),
+                                                                          ";".join(coq_idx(ix) for ix in o["idx"]), coq_mt(o.get("mt")),
+                                                                          coq_obs(o.get("obs"))) for i, o in items))
             s.append("].")
-            s.append("Definition bad := map (fun c => match c with (i, _, _, _, _, _) => i end) (filter (fun c => match c with (i, l, off, text, idxs, ob) => "
-                     "match run_comment_rules nodeTextInRange l src off text (combine rules idxs) with Ok r => negb (rep_eqb r ob) | Panic _ => true end end) cases).")
+            s.append("Definition bad := map (fun c => match c with (i, _, _, _, _, _, _, _) => i end) (filter (fun c => match c with (i, l, f, off, text, idxs, mt, ob) => "
+                     "match run_loop nodeTextInRange (table_oracle mt) l (nth f srcs []) off text %s md_zero (combine rules idxs) with "
+                     "Ok r => negb (rep_eqb r ob) | Panic _ => true end end) cases)." % fresh)
             s.append("Definition RES := Eval vm_compute in (bad, List.length cases).")
             s.append("Print RES.")
             return "\n".join(s)
